@@ -9,6 +9,7 @@ of the counter word comes from Extracted/PoolConsts.lean (regenerated from the s
 -/
 import YaclibModel.Proofs.PoolBlocked
 import YaclibModel.Proofs.PoolExecContract
+import YaclibModel.Proofs.PoolExecNoDrop
 import YaclibModel.Proofs.StrandTowerN
 import YaclibModel.Extracted.Kernels
 import YaclibModel.Model.Skeletons
@@ -417,6 +418,24 @@ theorem pool_honours_contract {n : Nat} (hn : 0 < n) (stop : Option StopKind) (s
 theorem pool_interface_state {n : Nat} {stop : Option StopKind} {spur : Bool} {x : (poolExec n stop spur).σ}
     {p : Strand.Prot} (h : (poolExec n stop spur).Run x p) : p = absP x ∧ Reachable (wN n stop x.m.subs.length) x.m :=
   ⟨run_abs h, (pxinv_reach h.reach).reach⟩
+
+/-- **a pool that nobody stops never Drops**: in every reachable state of the open pool without a stopper no `drop`
+    event is possible (the stop bits are never set, so no Submit rejects; there is no HardStop).  (The literal
+    `CoMutex.NeverDrops (poolExec n none spur)`, which quantifies over unreachable states too, is false — see
+    Proofs/PoolExecNoDrop.lean and `CoMutex.pool_none_neverDrops_false`.) -/
+theorem pool_never_drops_unstopped {n : Nat} {spur : Bool} {x : (poolExec n none spur).σ}
+    (hr : (poolExec n none spur).Reach x) {l : PLab} {x' : PX} (hs : (poolExec n none spur).step x l x') (a : Nat) :
+    (poolExec n none spur).ev l ≠ some (.drop a) := unstopped_no_drop hr hs a
+
+/-- the same system with the unreachable drop steps removed from its step relation (`poolExecAlive`) has the same
+    reachable states and the same steps from them, never Drops from *any* state, and honours the contract — this is the
+    form the composition theorem of C14 (coroutine Mutex over an executor that keeps accepting work) consumes -/
+theorem unstopped_pool_alive {n : Nat} (hn : 0 < n) (spur : Bool) :
+    (∀ x, (poolExecAlive n spur).Reach x ↔ (poolExec n none spur).Reach x) ∧
+    (∀ x, (poolExec n none spur).Reach x → ∀ l x', (poolExecAlive n spur).step x l x' ↔ (poolExec n none spur).step x l x') ∧
+    (∀ x l x' a, (poolExecAlive n spur).step x l x' → (poolExecAlive n spur).ev l ≠ some (.drop a)) ∧
+    Strand.ExecContract (poolExecAlive n spur) :=
+  ⟨fun _ => alive_reach_iff, fun _ h l x' => alive_step_iff h l x', alive_never_drops n spur, alive_contract hn spur⟩
 
 /-- **strands stacked on a FairThreadPool**: a tower of strands of any height over the pool honours the contract … -/
 theorem tower_over_pool {n : Nat} (hn : 0 < n) (stop : Option StopKind) (spur : Bool) (k : Nat) :
